@@ -17,6 +17,8 @@ SENSITIVE = ("node-nmap-ping-scan", "node-nmap-port-scan", "node-network-service
 
 def action_names(src):
     """action map of the single proxy agent, computed in the parent without building the env"""
+    if src[0] == "variant":
+        return action_names(src[1]["base"])
     if src[0] == "gen":
         cfg, meta = gen.gen(src[1]["seed"], src[1].get("family"), src[1].get("knobs"))
     elif src[0] == "shipped":
@@ -89,6 +91,10 @@ class Check:
         for i, s in enumerate(srcs):
             specs.append({"name": f"{s[1]}", "src": s, "seed": seed * 10 + i, "steps": steps if i == 0 else (32 if q else 128), "episodes": 2,
                           "max_len": None})
+        for j in range(2 if q else 6):  # the same files with scripted-agent settings re-drawn (several TAP start hosts, variances, ...)
+            for f in ("uc7_config.yaml", "uc7_config_tap003.yaml"):
+                specs.append({"name": f"{f}~settings{seed * 10 + j}", "src": ["variant", {"base": ["shipped", f], "settings_seed": seed * 10 + j, "p_nodes": 1.0}],
+                              "seed": seed * 10 + 5 + j, "steps": 32 if q else 96, "episodes": 2, "max_len": None})
         for g in range(8 if q else 32):
             sd = seed * 1000 + g
             specs.append({"name": f"gen-{sd}", "src": ["gen", {"seed": sd, "knobs": {"p_random_agent": 0.5}}], "seed": sd, "steps": steps, "episodes": 2})
@@ -108,6 +114,8 @@ class Check:
                 ("clock-jumps", {"arm": {"clock": "jumps"}}), ("entropy-stream", {"arm": {"entropy": 4242}}), ("logging-on", {"arm": {"logging": True}})]
         if tier_thorough:
             arms += [("hashseed", {"hashseed": h}) for h in range(3, 9)]
+        elif spec["src"][0] == "variant":
+            arms += [("hashseed", {"hashseed": h}) for h in (3, 4)]
         sens = base["diag"]["sensitive"]
         sensitive = sens["nmap_scans"] > 0 or sens["prob_agent_steps"] >= 50 or len(sens["tap_stages"]) > 1
         digs = []
